@@ -102,6 +102,8 @@ type interpreter struct {
 	fnCount     map[*ssa.Function]int64
 	auditEvery  int
 	auditCount  int
+	memoOn      bool
+	memo        map[string]*memoEntry
 }
 
 type deferred struct {
@@ -116,7 +118,8 @@ type frame struct {
 	caller           *frame
 	fn               *ssa.Function
 	block, prevBlock *ssa.BasicBlock
-	env              map[ssa.Value]value // dynamic values of SSA variables
+	env              []value             // dynamic values of SSA variables, indexed by fi.index
+	fi               *funcInfo
 	locals           []value
 	defers           *deferred
 	result           value
@@ -140,8 +143,8 @@ func (fr *frame) get(key ssa.Value) value {
 			return r
 		}
 	}
-	if r, ok := fr.env[key]; ok {
-		return r
+	if k, ok := fr.fi.index[key]; ok {
+		return fr.env[k]
 	}
 	panic(engineFault(fmt.Sprintf("get: no value for %T: %v", key, key.Name())))
 }
@@ -211,35 +214,35 @@ func visitInstr(fr *frame, instr ssa.Instruction) continuation {
 		// no-op
 
 	case *ssa.UnOp:
-		fr.env[instr] = unopS(fr, instr, fr.get(instr.X))
+		fr.env[fr.fi.index[instr]] = unopS(fr, instr, fr.get(instr.X))
 
 	case *ssa.BinOp:
-		fr.env[instr] = binopS(fr.i, instr.Op, instr.X.Type(), fr.get(instr.X), fr.get(instr.Y))
+		fr.env[fr.fi.index[instr]] = binopS(fr.i, instr.Op, instr.X.Type(), fr.get(instr.X), fr.get(instr.Y))
 
 	case *ssa.Call:
 		fn, args := prepareCall(fr, &instr.Call)
-		fr.env[instr] = call(fr.i, fr, instr.Pos(), fn, args)
+		fr.env[fr.fi.index[instr]] = call(fr.i, fr, instr.Pos(), fn, args)
 
 	case *ssa.ChangeInterface:
-		fr.env[instr] = fr.get(instr.X)
+		fr.env[fr.fi.index[instr]] = fr.get(instr.X)
 
 	case *ssa.ChangeType:
-		fr.env[instr] = fr.get(instr.X) // (can't fail)
+		fr.env[fr.fi.index[instr]] = fr.get(instr.X) // (can't fail)
 
 	case *ssa.Convert:
-		fr.env[instr] = convS(fr.i, instr.Type(), instr.X.Type(), fr.get(instr.X))
+		fr.env[fr.fi.index[instr]] = convS(fr.i, instr.Type(), instr.X.Type(), fr.get(instr.X))
 
 	case *ssa.SliceToArrayPointer:
-		fr.env[instr] = sliceToArrayPointer(instr.Type(), instr.X.Type(), fr.get(instr.X))
+		fr.env[fr.fi.index[instr]] = sliceToArrayPointer(instr.Type(), instr.X.Type(), fr.get(instr.X))
 
 	case *ssa.MakeInterface:
-		fr.env[instr] = iface{t: instr.X.Type(), v: fr.get(instr.X)}
+		fr.env[fr.fi.index[instr]] = iface{t: instr.X.Type(), v: fr.get(instr.X)}
 
 	case *ssa.Extract:
-		fr.env[instr] = fr.get(instr.Tuple).(tuple)[instr.Index]
+		fr.env[fr.fi.index[instr]] = fr.get(instr.Tuple).(tuple)[instr.Index]
 
 	case *ssa.Slice:
-		fr.env[instr] = sliceS(fr.i, fr.get(instr.X), fr.get(instr.Low), fr.get(instr.High), fr.get(instr.Max))
+		fr.env[fr.fi.index[instr]] = sliceS(fr.i, fr.get(instr.X), fr.get(instr.Low), fr.get(instr.High), fr.get(instr.Max))
 
 	case *ssa.Return:
 		switch len(instr.Results) {
@@ -315,17 +318,17 @@ func visitInstr(fr *frame, instr ssa.Instruction) continuation {
 
 	case *ssa.MakeChan:
 		fr.i.ps.events = append(fr.i.ps.events, "sync:make-chan")
-		fr.env[instr] = make(chan value, asInt64(fr.get(instr.Size)))
+		fr.env[fr.fi.index[instr]] = make(chan value, asInt64(fr.get(instr.Size)))
 
 	case *ssa.Alloc:
 		var addr *value
 		if instr.Heap {
 			// new
 			addr = new(value)
-			fr.env[instr] = addr
+			fr.env[fr.fi.index[instr]] = addr
 		} else {
 			// local
-			addr = fr.env[instr].(*value)
+			addr = fr.env[fr.fi.index[instr]].(*value)
 		}
 		*addr = zero(mustDeref(instr.Type()))
 
@@ -340,7 +343,7 @@ func visitInstr(fr *frame, instr ssa.Instruction) continuation {
 		for i := range slice {
 			slice[i] = zero(tElt)
 		}
-		fr.env[instr] = slice[:lenv]
+		fr.env[fr.fi.index[instr]] = slice[:lenv]
 
 	case *ssa.MakeMap:
 		var reserve int64
@@ -350,36 +353,36 @@ func visitInstr(fr *frame, instr ssa.Instruction) continuation {
 		if !fitsInt(reserve, fr.i.sizes) {
 			panic(engineFault(fmt.Sprintf("ssa.MakeMap.Reserve value %d does not fit in int", reserve)))
 		}
-		fr.env[instr] = makeMap(instr.Type().Underlying().(*types.Map).Key(), reserve)
+		fr.env[fr.fi.index[instr]] = makeMap(instr.Type().Underlying().(*types.Map).Key(), reserve)
 
 	case *ssa.Range:
-		fr.env[instr] = rangeIter(fr.i, fr.get(instr.X), instr.X.Type())
+		fr.env[fr.fi.index[instr]] = rangeIter(fr.i, fr.get(instr.X), instr.X.Type())
 
 	case *ssa.Next:
-		fr.env[instr] = fr.get(instr.Iter).(iter).next()
+		fr.env[fr.fi.index[instr]] = fr.get(instr.Iter).(iter).next()
 
 	case *ssa.FieldAddr:
 		p := fr.get(instr.X).(*value)
 		if p == nil {
 			panic(runtimePanic(fr.i, "runtime error: invalid memory address or nil pointer dereference"))
 		}
-		fr.env[instr] = &(*p).(structure)[instr.Field]
+		fr.env[fr.fi.index[instr]] = &(*p).(structure)[instr.Field]
 
 	case *ssa.Field:
-		fr.env[instr] = fr.get(instr.X).(structure)[instr.Field]
+		fr.env[fr.fi.index[instr]] = fr.get(instr.X).(structure)[instr.Field]
 
 	case *ssa.IndexAddr:
 		x := fr.get(instr.X)
 		idx := fr.get(instr.Index)
 		switch x := x.(type) {
 		case []value:
-			fr.env[instr] = &x[fr.i.concIndex(idx, len(x))]
+			fr.env[fr.fi.index[instr]] = &x[fr.i.concIndex(idx, len(x))]
 		case *value: // *array
 			if x == nil {
 				panic(runtimePanic(fr.i, "runtime error: invalid memory address or nil pointer dereference"))
 			}
 			a := (*x).(array)
-			fr.env[instr] = &a[fr.i.concIndex(idx, len(a))]
+			fr.env[fr.fi.index[instr]] = &a[fr.i.concIndex(idx, len(a))]
 		default:
 			panic(engineFault(fmt.Sprintf("unexpected x type in IndexAddr: %T", x)))
 		}
@@ -390,17 +393,17 @@ func visitInstr(fr *frame, instr ssa.Instruction) continuation {
 
 		switch x := x.(type) {
 		case array:
-			fr.env[instr] = x[fr.i.concIndex(idx, len(x))]
+			fr.env[fr.fi.index[instr]] = x[fr.i.concIndex(idx, len(x))]
 		case string:
-			fr.env[instr] = x[fr.i.concIndex(idx, len(x))]
+			fr.env[fr.fi.index[instr]] = x[fr.i.concIndex(idx, len(x))]
 		case *SymStr:
-			fr.env[instr] = x.B[fr.i.concIndex(idx, len(x.B))]
+			fr.env[fr.fi.index[instr]] = x.B[fr.i.concIndex(idx, len(x.B))]
 		default:
 			panic(engineFault(fmt.Sprintf("unexpected x type in Index: %T", x)))
 		}
 
 	case *ssa.Lookup:
-		fr.env[instr] = lookup(fr.i, instr, fr.get(instr.X), fr.get(instr.Index))
+		fr.env[fr.fi.index[instr]] = lookup(fr.i, instr, fr.get(instr.X), fr.get(instr.Index))
 
 	case *ssa.MapUpdate:
 		m := fr.get(instr.Map)
@@ -417,14 +420,14 @@ func visitInstr(fr *frame, instr ssa.Instruction) continuation {
 		}
 
 	case *ssa.TypeAssert:
-		fr.env[instr] = typeAssert(fr.i, instr, fr.get(instr.X).(iface))
+		fr.env[fr.fi.index[instr]] = typeAssert(fr.i, instr, fr.get(instr.X).(iface))
 
 	case *ssa.MakeClosure:
 		var bindings []value
 		for _, binding := range instr.Bindings {
 			bindings = append(bindings, fr.get(binding))
 		}
-		fr.env[instr] = &closure{instr.Fn.(*ssa.Function), bindings}
+		fr.env[fr.fi.index[instr]] = &closure{instr.Fn.(*ssa.Function), bindings}
 
 	case *ssa.Phi:
 		panic(engineFault("phi reached"))
@@ -539,24 +542,63 @@ func callSSA(i *interpreter, caller *frame, callpos token.Pos, fn *ssa.Function,
 		}
 	}
 	i.noteCall(fn, false)
+	if key, ok := i.memoKey(fn, args); ok {
+		i.eng.memoMu.RLock()
+		e, hit := i.eng.memo[key]
+		i.eng.memoMu.RUnlock()
+		if hit {
+			if r, ok := deepCopy(e.result); ok {
+				for f, c := range e.counts {
+					i.fnCount[f] += c
+				}
+				return r
+			}
+		}
+		before := map[*ssa.Function]int64{}
+		for f, c := range i.fnCount {
+			before[f] = c
+		}
+		r := callSSAbody(i, fr, fn, args, env)
+		if t, ok := r.(tuple); ok && len(t) == 2 {
+			if e, ok := t[1].(iface); ok && e.t == nil {
+				if cp, ok := deepCopy(r); ok {
+					d := map[*ssa.Function]int64{}
+					for f, c := range i.fnCount {
+						if c != before[f] {
+							d[f] = c - before[f]
+						}
+					}
+					i.eng.memoMu.Lock()
+					i.eng.memo[key] = &memoEntry{result: cp, counts: d}
+					i.eng.memoMu.Unlock()
+				}
+			}
+		}
+		return r
+	}
+	return callSSAbody(i, fr, fn, args, env)
+}
+
+func callSSAbody(i *interpreter, fr *frame, fn *ssa.Function, args []value, env []value) value {
 
 	// generic function body?
 	if fn.TypeParams().Len() > 0 && len(fn.TypeArgs()) == 0 {
 		panic(engineFault("interp requires ssa.BuilderMode to include InstantiateGenerics to execute generics"))
 	}
 
-	fr.env = make(map[ssa.Value]value)
+	fr.fi = i.eng.funcInfoOf(fn)
+	fr.env = make([]value, fr.fi.n)
 	fr.block = fn.Blocks[0]
 	fr.locals = make([]value, len(fn.Locals))
 	for i, l := range fn.Locals {
 		fr.locals[i] = zero(mustDeref(l.Type()))
-		fr.env[l] = &fr.locals[i]
+		fr.env[fr.fi.index[l]] = &fr.locals[i]
 	}
 	for i, p := range fn.Params {
-		fr.env[p] = args[i]
+		fr.env[fr.fi.index[p]] = args[i]
 	}
 	for i, fv := range fn.FreeVars {
-		fr.env[fv] = env[i]
+		fr.env[fr.fi.index[fv]] = env[i]
 	}
 	for fr.block != nil {
 		runFrame(fr)
@@ -659,7 +701,7 @@ func executePhis(fr *frame) []ssa.Instruction {
 			fr.phitemps = append(fr.phitemps, fr.get(phi.Edges[predIndex]))
 		}
 		for i, phi := range phis {
-			fr.env[phi.(*ssa.Phi)] = fr.phitemps[i]
+			fr.env[fr.fi.index[phi.(*ssa.Phi)]] = fr.phitemps[i]
 		}
 	}
 	return nonPhis
